@@ -252,6 +252,15 @@ def oracle(case):
             e2 = obj.compute_jackknife_estimates(data * cfac, fn_plain, 2, *args, **kwargs)
             if float(e2).hex() != float(abs(cfac) * est).hex():
                 return f"data multiplied by {cfac}: estimate {float(e2)!r}, expected |c| * estimate = {abs(cfac) * est!r}"
+    if case["stat"] in HOMOGENEOUS:
+        # one object, one array: called, then the SAME array is scaled in place (exactly, by 2) and handed over again
+        buf = data.copy()
+        e_a = float(obj.compute_jackknife_estimates(buf, fn_plain, 2, *args, **kwargs))
+        buf *= 2.0
+        e_b = float(obj.compute_jackknife_estimates(buf, fn_plain, 2, *args, **kwargs))
+        if e_a.hex() != float(est).hex() or e_b.hex() != float(2.0 * est).hex():
+            return (f"the same array object handed over before and after it was doubled in place: estimates {e_a!r} and {e_b!r}, "
+                    f"expected {float(est)!r} and {2.0 * float(est)!r}")
     if case["stat"] == "mean":
         for a in (3.0, 1048576.0):              # a large offset too (rounding of data + a grows with a: tolerance relative to it)
             e3 = float(obj.compute_jackknife_estimates(data + a, fn_plain, 2, *args, **kwargs))
